@@ -1,0 +1,36 @@
+//go:build verif
+
+// Contracts (machine-checked specifications) for package core, read by /verif's govc.
+// This file contains comments only and compiles to nothing with or without the tag.
+
+package core
+
+// ---------------------------------------------------------------------------------------------
+// Cross-chain identifiers (C20)
+// ---------------------------------------------------------------------------------------------
+
+// canonDomain(s): s is exactly the decimal form of a 32-bit domain number.
+//@ macro canonDomain(s) = exists d int :: 0 <= d && d < 4294967296 && s == dec(d)
+//@ macro idstr(p, c) = concat(dec(p), ":", c)
+
+//@ func ValidateCounterpartyID(id, protocol) (err)
+//@   ensures[C20] err == nil && (protocol == PROTOCOL_CCTP || protocol == PROTOCOL_HYPERLANE) ==> canonDomain(id)
+//@   ensures[C20] err == nil ==> id != "" && strlen(id) <= 32
+//@   ensures[C20] err == nil && protocol == PROTOCOL_IBC ==> isChannelID(id)
+//@   ensures[C20] err == nil ==> protocol == PROTOCOL_IBC || protocol == PROTOCOL_CCTP || protocol == PROTOCOL_HYPERLANE || protocol == PROTOCOL_INTERNAL
+
+//@ func (i CrossChainID) ID() (s)
+//@   ensures[C20] i.ProtocolId >= 0 ==> s == idstr(i.ProtocolId, i.CounterpartyId)
+
+// The textual form parses back to the pair it was made from, whenever that pair is a valid identifier.
+// "Valid" is the verdict of CrossChainID.Validate itself: vcc(x) names that verdict as a function of
+// the identifier (justified by the purity obligation: Validate reads nothing but its receiver).
+//@ func (i CrossChainID) Validate() (err)
+//@   pure-verdict vcc
+
+//@ func ParseCrossChainID(str) (id, err)
+//@   ensures[C20] forall p int, c string :: vcc(mk("CrossChainID", p, c)) && 1 <= p && p <= 9 && str == idstr(p, c) ==> err == nil && id == mk("CrossChainID", p, c)
+
+// Distinct pairs have distinct textual forms (protocol numbers are single digits today; the
+// enum would have to reach 10 entries for this lemma to need restating).
+//@ lemma[C20] idInjective: forall p1 int, c1 string, p2 int, c2 string :: 1 <= p1 && p1 <= 9 && 1 <= p2 && p2 <= 9 && idstr(p1, c1) == idstr(p2, c2) ==> p1 == p2 && c1 == c2
